@@ -348,7 +348,7 @@ class Ctx:
         dst = os.path.join(COQ, out_rel)
         if p.returncode != 0:
             return False, (p.stderr or p.stdout)[-2000:]
-        with _lock():
+        with _lock(out_rel):
             old = open(dst).read() if os.path.exists(dst) else None
             if old != p.stdout:
                 os.makedirs(os.path.dirname(dst), exist_ok=True)
@@ -361,27 +361,15 @@ class Ctx:
 
     # -- Coq -----------------------------------------------------------------
     def coq_build(self, targets):
-        '''make the given .vo targets (paths relative to coq/).  Returns
+        '''compile the given .vo targets (paths relative to coq/) and
+        everything they depend on, full .vo, in dependency order.  Returns
         (ok, failing_file, log).'''
-        with _lock():
-            _refresh_makefile()
-            cmd = 'timeout %d make -j16 -f Makefile.coq %s' % (
-                COQ_TIMEOUT,
-                ' '.join(targets),
-            )
-            rc, out = sh(cmd, cwd=COQ)
+        ok, bad, log, cmds = build_cone([t[:-3] + '.v' for t in targets])
         self.cov['checker_cmd'] = (
-            'cd /verif/coq && coq_makefile -f _CoqProject -o Makefile.coq && '
-            + cmd
+            'cd /verif/coq && for f in %s; do timeout %d coqc -q -R . DV $f; done'
+            % (' '.join(cmds), COQ_TIMEOUT)
         )
-        if rc == 0:
-            return True, None, out
-        m = re.findall(r'File "\./([^"]+)", line (\d+)', out)
-        bad = m[-1][0] if m else None
-        if bad is None:
-            m2 = re.findall(r'\*\*\* \[[^:]*: ([^\]]+?)\.vo', out)
-            bad = (m2[-1] + '.v') if m2 else 'unknown'
-        return False, bad, out[-4000:]
+        return ok, bad, log
 
     def coq_scan(self, files):
         '''fail-closed grep for forbidden vernacular in the given sources.'''
@@ -396,8 +384,6 @@ class Ctx:
     def coq_cone(self, target_v):
         '''the .v files (relative to coq/) the target depends on, itself
         included, via coqdep.'''
-        with _lock():
-            _refresh_makefile()
         seen, todo = [], [target_v]
         deps = _coqdep()
         while todo:
@@ -439,7 +425,7 @@ class Ctx:
             res['failing'] = failing
             res['log'] = log
             return res
-        with _lock():
+        with _lock(props_rel):
             vo = src[:-2] + '.vo'
             if os.path.exists(vo):
                 os.unlink(vo)
@@ -712,22 +698,21 @@ class HarnessError(Exception):
 
 
 class _lock:
-    '''serialise everything that touches coq/ build products.'''
+    '''per-file advisory lock (coq/.locks/<name>) so that concurrent checks
+    never compile or rewrite the same file at the same time.'''
 
-    depth = 0
-    fh = None
+    def __init__(self, name='global'):
+        d = os.path.join(COQ, '.locks')
+        os.makedirs(d, exist_ok=True)
+        self.path = os.path.join(d, name.replace('/', '_'))
 
     def __enter__(self):
-        if _lock.depth == 0:
-            _lock.fh = open(os.path.join(COQ, '.lock'), 'w')
-            fcntl.flock(_lock.fh, fcntl.LOCK_EX)
-        _lock.depth += 1
+        self.fh = open(self.path, 'w')
+        fcntl.flock(self.fh, fcntl.LOCK_EX)
 
     def __exit__(self, *a):
-        _lock.depth -= 1
-        if _lock.depth == 0:
-            fcntl.flock(_lock.fh, fcntl.LOCK_UN)
-            _lock.fh.close()
+        fcntl.flock(self.fh, fcntl.LOCK_UN)
+        self.fh.close()
 
 
 def _vfiles():
@@ -737,21 +722,8 @@ def _vfiles():
     return [os.path.relpath(f, COQ) for f in fs]
 
 
-def _refresh_makefile():
-    want = '-R . DV\n-arg -w -arg -notation-overridden,-deprecated\n' + '\n'.join(_vfiles()) + '\n'
-    proj = os.path.join(COQ, '_CoqProject')
-    old = open(proj).read() if os.path.exists(proj) else None
-    mk = os.path.join(COQ, 'Makefile.coq')
-    if old != want or not os.path.exists(mk):
-        with open(proj, 'w') as f:
-            f.write(want)
-        rc, out = sh('coq_makefile -f _CoqProject -o Makefile.coq', cwd=COQ)
-        if rc != 0:
-            raise RuntimeError('coq_makefile failed: ' + out)
-
-
 def _coqdep():
-    rc, out = sh('coqdep -R . DV ' + ' '.join(_vfiles()), cwd=COQ)
+    rc, out = sh('coqdep -R . DV ' + ' '.join(_vfiles()) + ' 2>/dev/null', cwd=COQ)
     deps = {}
     for line in out.splitlines():
         if ':' not in line:
@@ -769,15 +741,87 @@ def _coqdep():
     return deps
 
 
+def _stale(v, deps):
+    src = os.path.join(COQ, v)
+    vo = src[:-2] + '.vo'
+    if not os.path.exists(vo):
+        return True
+    t = os.path.getmtime(vo)
+    if os.path.getmtime(src) > t:
+        return True
+    for d in deps.get(v, []):
+        dvo = os.path.join(COQ, d[:-2] + '.vo')
+        if not os.path.exists(dvo) or os.path.getmtime(dvo) > t:
+            return True
+    return False
+
+
+def _levels(files, deps):
+    '''files grouped by dependency depth (level 0 first).'''
+    depth = {}
+
+    def d(f, stack=()):
+        if f in depth:
+            return depth[f]
+        if f in stack:
+            raise RuntimeError('dependency cycle through ' + f)
+        ds = [x for x in deps.get(f, []) if x in files]
+        depth[f] = 1 + max([d(x, stack + (f,)) for x in ds], default=-1)
+        return depth[f]
+
+    for f in files:
+        d(f)
+    out = {}
+    for f, k in depth.items():
+        out.setdefault(k, []).append(f)
+    return [sorted(out[k]) for k in sorted(out)]
+
+
+def _compile_one(v, deps):
+    with _lock(v):
+        if not _stale(v, deps):
+            return 0, ''
+        vo = os.path.join(COQ, v[:-2] + '.vo')
+        if os.path.exists(vo):
+            os.unlink(vo)
+        return sh('timeout %d coqc -q -R . DV -w -notation-overridden,-deprecated %s'
+                  % (COQ_TIMEOUT, v), cwd=COQ)
+
+
+def build_cone(target_vs):
+    '''Compile (full .vo) the targets and their dependencies, level by level,
+    files of one level in parallel.  Returns (ok, failing, log, order).'''
+    from concurrent.futures import ThreadPoolExecutor
+
+    deps = _coqdep()
+    cone, todo = set(), list(target_vs)
+    while todo:
+        f = todo.pop()
+        if f in cone:
+            continue
+        cone.add(f)
+        todo.extend(deps.get(f, []))
+    order = []
+    logs = []
+    for level in _levels(cone, deps):
+        order += level
+        with ThreadPoolExecutor(max_workers=16) as ex:
+            res = list(ex.map(lambda v: _compile_one(v, deps), level))
+        for v, (rc, out) in zip(level, res):
+            if out.strip():
+                logs.append('--- %s\n%s' % (v, out[-3000:]))
+            if rc != 0:
+                return False, v, '\n'.join(logs)[-6000:], order
+    return True, None, '\n'.join(logs)[-6000:], order
+
+
 def build_all():
-    '''setup_cmd: full build of the Coq tree from clean.'''
-    with _lock():
-        _refresh_makefile()
-        rc, out = sh(
-            'timeout 3000 make -j16 -f Makefile.coq', cwd=COQ
-        )
-    print(out[-3000:])
-    return rc
+    '''setup_cmd: full build of the Coq tree.'''
+    ok, bad, log, order = build_cone(_vfiles())
+    print(log[-3000:])
+    print('coq build: %s (%d files)%s' % ('ok' if ok else 'FAILED', len(order),
+                                         '' if ok else ' at ' + str(bad)))
+    return 0 if ok else 1
 
 
 # ---------------------------------------------------------------------------
